@@ -232,6 +232,12 @@ CAMPAIGNS.update({
         thorough=[ex(ph(LAYOUT), ph(["merge"], True, "r")),
                   ex(ph(LAYOUT, False, "same", 0, "b"), ph(["merge"], True, "r")),
                   ex(ph(LAYOUT, pick=8), ph(LAYOUT, False, "same", 4, "b"), ph(["merge"], True, "r"))]),
+    # every pair of 2 x 2 matrices over {0,1,2} on partially overlapping IDs x the four union/intersection modes
+    "merge_universe": dict(model_campaign(
+        "merge_universe", palettes=SUMP, heaps="univpair",
+        quick=[ex(ph(["merge"], False, "r"))], thorough=[ex(ph(["merge"], True, "r", 8))],
+        cap_quick=8000, cap_thorough=200000),
+        univ={"quick": {"n": 2, "m": 2, "vals": 3, "k": 500}, "thorough": {"n": 2, "m": 2, "vals": 3, "k": 0}}),
     "concat_blocks": model_campaign(
         "concat_blocks", palettes=SUMP, heaps="cat",
         quick=[ex(ph(["concat"], True, "r")),
@@ -353,7 +359,7 @@ PROPERTIES = {
     "C20": {"level": "model_checking", "campaigns": [CAMPAIGNS["err_profile"]],
             "assumptions": ["kinds obssize/sampsize cannot be tripped in isolation (the duplicate test is also true "
                             "for every size mismatch and is evaluated first), so their reactions are not exercised"]},
-    "C09": {"level": "model_checking", "campaigns": [CAMPAIGNS["merge_pairs"]], "assumptions": []},
+    "C09": {"level": "model_checking", "campaigns": [CAMPAIGNS["merge_pairs"], CAMPAIGNS["merge_universe"]], "assumptions": []},
     "C10": {"level": "model_checking", "campaigns": [CAMPAIGNS["concat_blocks"]], "assumptions": []},
     "C11": {"level": "model_checking", "campaigns": [CAMPAIGNS["partition_collapse"]], "assumptions": []},
     "C12": {"level": "model_checking", "campaigns": [CAMPAIGNS["subsample_counts"], CAMPAIGNS["draws"]],
